@@ -210,7 +210,7 @@ func init() {
 		Jobs: c01Jobs,
 		Budget: func(tier string) time.Duration {
 			if tier == "quick" {
-				return 75 * time.Second
+				return 120 * time.Second
 			}
 			return 14 * time.Minute
 		},
